@@ -28,8 +28,8 @@ NaN2 == F("nan", 0, "nan2")
 FDom == {FNInf, FNMax, N55, NTiny, NZ, PZ, PTiny, P55, FPMax, FPInf, NaN1, NaN2}
 
 \* bounds that can be written as literals, and those that need an expression
-LitBounds  == IF Tier = "quick" THEN {N55, PZ, P55} ELSE {N55, NZ, PZ, P55}
-ExprBounds == IF Tier = "quick" THEN {FNInf, FPInf, NaN1} ELSE {FNInf, FNMax, FPMax, FPInf, NaN1}
+LitBounds  == IF Tier \in {"quick", "c07"} THEN {N55, PZ, P55} ELSE {N55, NZ, PZ, P55}
+ExprBounds == IF Tier = "c07" THEN {FPInf, NaN1} ELSE IF Tier = "quick" THEN {FNInf, FPInf, NaN1} ELSE {FNInf, FNMax, FPMax, FPInf, NaN1}
 
 Rule(k, b, sp) == [k |-> k, b |-> b, fn |-> "", p |-> <<>>, sp |-> sp]
 Finite == [k |-> "finite", b |-> PZ, fn |-> "", p |-> <<>>, sp |-> "lit"]
@@ -55,7 +55,7 @@ San(fn, p) == [k |-> "with", fn |-> fn, p |-> p]
 AllSans == {<<>>, <<San("clamp", <<N55, P55>>)>>, <<San("nan_to", <<PZ>>)>>}
 FewSans == {<<>>, <<San("nan_to", <<PZ>>)>>}
 
-Defaults == IF Tier = "quick" THEN {<<P55>>} ELSE {<<P55>>, <<NaN1>>, <<FPInf>>}
+Defaults == IF Tier \in {"quick", "c07"} THEN {<<P55>>} ELSE {<<P55>>, <<NaN1>>, <<FPInf>>}
 
 StdTraits == <<"Debug", "Clone", "Copy", "PartialEq", "PartialOrd",
                "AsRef", "Deref", "Borrow", "Into", "Display", "FromStr", "Default",
@@ -73,7 +73,9 @@ CustomVals == {<<[k |-> "custom", b |-> PZ, fn |-> "pos", p |-> <<PZ>>, sp |-> "
 WithFinite(SS) == SS \cup {S \cup {Finite} : S \in SS}
 
 Guards ==
-  IF Tier = "quick"
+  IF Tier = "c07"     \* C07 slice: every order of lower + upper + finite + predicate
+  THEN {<<S \cup {Finite, PredNe}, {<<>>}>> : S \in Pairs} \cup {<<S \cup {Finite}, {<<>>}>> : S \in Pairs}
+  ELSE IF Tier = "quick"
   THEN {<<S, FewSans>> : S \in WithFinite(Pairs)}
        \cup {<<S, AllSans>> : S \in WithFinite(Singles) \cup {{Finite}, {PredNotNan}, {Finite, PredNe}}}
   ELSE {<<S, AllSans>> : S \in WithFinite(Pairs) \cup WithFinite(Singles)
